@@ -146,7 +146,7 @@ var labelRe = regexp.MustCompile(`^\[([^\]]+)\]\s*`)
 var clauseKeywords = map[string]bool{
 	"package": true, "func": true, "iface": true, "requires": true, "ensures": true, "assigns": true,
 	"decreases": true, "tags": true, "dispatch": true, "replay": true, "spec": true, "pred": true,
-	"ghost": true, "axiom": true, "lemma": true, "entry": true, "exit": true, "trusted": true, "params": true,
+	"ghost": true, "axiom": true, "lemma": true, "entry": true, "exit": true, "assert": true, "trusted": true, "params": true,
 	"globalinv": true, "call": true, "unfold": true, "use": true, "assume": true, "end": true, "opaque": true,
 }
 
@@ -429,7 +429,7 @@ func (cs *ContractSet) LoadFile(path, defaultPkg string) {
 					lc.Decreases = mkClause("decreases", body, rc.line, true)
 				case "assigns":
 					lc.Assigns = append(lc.Assigns, mkClause("assigns", body, rc.line, false))
-				case "unfold", "use", "assume":
+				case "unfold", "use", "assume", "assert":
 					if c := mkClause(f2[0], body, rc.line, true); c != nil {
 						lc.Hints = append(lc.Hints, c)
 					}
